@@ -253,6 +253,23 @@ pub fn generate(prop: &str, out: &mut Out, thorough: bool, seed: u64) -> bool {
     if prop != "C17" {
         return false;
     }
+    if std::env::var("VERIF_SEARCH").is_ok() {
+        // search for a failing input after a proof obligation about a gated table broke: every scalar value of
+        // the BMP and of plane 2 through the seven legacy multi-byte encoders (the only ones with gated
+        // encode tables), from UTF-8; the check compares the files of the configurations
+        for &e in ALL.iter() {
+            if e.is_single_byte() || e.output_encoding() == encoding_rs::UTF_8 {
+                continue;
+            }
+            let id = ident(e);
+            for c in (0..=0xFFFFu32).chain(0x20000..=0x2FFFF) {
+                if let Some(ch) = char::from_u32(c) {
+                    emit8(out, &id, e, ch);
+                }
+            }
+        }
+        return true;
+    }
     gen_encoders(out, thorough, seed);
     gen_decoders(out, thorough);
     gen_validator_paths(out, thorough);
